@@ -53,7 +53,10 @@ func snapFailScenario(s *sc) {
 		s.inconclusive("the first notification did not go out well before the first maintenance run")
 		return
 	}
-	in.Sink.Settle(300 * time.Millisecond)
+	if !in.ClientSettled("", 300*time.Millisecond) {
+		s.inconclusive("the application had not returned from its first deliveries 8s after the receivers answered them")
+		return
+	}
 	metric := func(name string) float64 { v, _ := in.Metric(name); return v }
 	if metric("alertmanager_nflog_maintenance_total") > 0 || metric("alertmanager_silences_maintenance_total") > 0 {
 		s.inconclusive("a maintenance run came before the data dir could be moved away")
